@@ -233,6 +233,7 @@ def run(ctx):
     ctx.rule("frame/hdap", "service byte = service | 0x80*reliable, 2-byte opcode, length field = len(payload) in get_endianness(), terminator 0x03, checksum fed with exactly opcode..payload, len(pdu) = bytes produced")
     ctx.rule("frame/hrnp", "HRNP length field = 12 + len(HDAP) = bytes produced; checksum fed with every octet except the checksum field; checksum field = the computed value")
     ctx.rule("frame/hstrp-options", "every option is written as (continuation bit | command, length, data) with the continuation bit set on all but the last; len(options) = bytes produced")
+    ctx.rule("text/flag-distinguished", "a field declared Literal[<non-empty texts>] is never tested for mere truthiness (every declared value is truthy, so such a test cannot tell them apart)")
     ctx.rule("text/fixed-width", "a text field the reader slices with fixed width w is written with a format that yields exactly w characters over the field's declared range")
     ctx.rule("optional/deref", "a field the reader may set to None is not dereferenced by the writer under the same flags")
     ctx.rule("shape/coverage", "at least the hand-confirmed number of distinct shapes per PDU family is analysed")
@@ -727,6 +728,36 @@ def text_rules(ctx, repo):
             ctx.ob("text/fixed-width", f"{gci.qualname} | {fld}", ok, why, wr.loc)
     if found < 3:
         raise AnalysisError(f"{wr.qualname}: only {found} formatted text fields matched to reader slices")
+    # single-character flag fields (declared Literal["A", "V"] ...): every declared value is a non-empty text, hence truthy — a
+    # test of the bare field (`"A" if self.data_valid else "V"`) is the same for all of them and the writer cannot tell them apart
+    lit = {}
+    for n in ast.walk(init.node):
+        if isinstance(n, ast.AnnAssign) and isinstance(n.target, ast.Attribute) and isinstance(n.annotation, ast.Subscript) \
+                and ast.unparse(n.annotation.value).split(".")[-1] == "Literal":
+            vals = [e.value for e in ast.walk(n.annotation.slice) if isinstance(e, ast.Constant)]
+            if vals and all(isinstance(v, str) and v for v in vals):
+                lit[n.target.attr] = vals
+    for fld, vals in sorted(lit.items()):
+        bare = []
+        for m in gci.methods.values():
+            if m.name in ("__repr__", "__str__"):
+                continue   # diagnostic text is not part of the wire format the property is about
+            for n in ast.walk(m.node):
+                tests = []
+                if isinstance(n, (ast.If, ast.IfExp, ast.While)):
+                    tests = [n.test]
+                elif isinstance(n, ast.BoolOp):
+                    tests = list(n.values)
+                elif isinstance(n, ast.UnaryOp) and isinstance(n.op, ast.Not):
+                    tests = [n.operand]
+                for t in tests:
+                    if isinstance(t, ast.UnaryOp) and isinstance(t.op, ast.Not):
+                        t = t.operand
+                    if isinstance(t, ast.Attribute) and t.attr == fld and isinstance(t.value, ast.Name) and t.value.id == "self":
+                        bare.append(f"{m.name}:{t.lineno}")
+        ctx.ob("text/flag-distinguished", f"{gci.qualname} | {fld}", not bare,
+               (f"truthiness of the field is tested at {bare[:3]}: it is the same for all declared values {vals}" if bare else f"declared values {vals}: never tested for mere truthiness"), wr.loc)
+    ctx.coverage("text/flag-distinguished", f"{gci.qualname} | declared single-character flags", len(lit), 3, f"{len(lit)} Literal-typed text fields", wr.loc)
 
 
 def hrnp_sum_host(repo):
